@@ -32,7 +32,13 @@ def run(ctx):
                 'vs sort(cat()). Non-trivial: at least 2 data rows and a tie or a missing key cell.')
     ctx.assumptions += ['list.sort is stable (also with reverse=True); heapq.merge breaks ties by iterable order; '
                         'min/max return the first extremal element; pickle round-trips rows through chunk files']
-    ctx.prove(['PetlProofs.Props.C05'], REQUIRED)
+    from translators import merge_shape as _ms
+    try:
+        _msi = _ms.generate()
+        ctx.bridge('translator: %d syntactic facts about the merge machinery of sorts.py' % len(_msi['facts']), True)
+    except Exception as e:   # noqa
+        ctx.bridge('translator: merge machinery facts extracted', False, repr(e))
+    ctx.prove(['PetlProofs.Props.C05', 'PetlProofs.Props.C05Shape'], REQUIRED + ['Petl.C05.merge_machinery_as_modelled'])
     ncases = 3000 if ctx.thorough() else 400
     rng = ctx.rng
     tmpd = tempfile.mkdtemp(prefix='petl_c05_')
